@@ -181,6 +181,45 @@ def shrink(exe, c, fail, budget=40):
     return Case(c.name + "-min", cmds, dict(c.meta, S=S))
 
 
+def probe_cases(n=200003, kinds=("HASHRPDAC", "HASHRPF", "HASHHF", "HASHUFFDAC")):
+    """nearly full, large tables (overhead 0): the last inserted keys need tens of thousands of probes, i*h2 passes 2^32"""
+    rnd = random.Random(20261002)
+    S = set()
+    while len(S) < n:
+        S.add(bytes(rnd.randrange(97, 123) for _ in range(rnd.choice([5, 5, 6]))))
+    S = sorted(S)
+    cs = []
+    for kind in kinds:
+        cmds = D.build_cmds(S, kind, ["0"]) + ["save d i", "load r i generic 1", "locall r"]
+        cs.append(vlib.Case("probe-big-%s-%d" % (kind, n), cmds, {"kind": kind, "S": [], "n": n, "params": ["0"], "shape": "probe-big"}))
+    return cs
+
+
+def probe_search(run, cfg, deep=False):
+    """bulk locate/extract of every member of large nearly-full tables; deep = the failing-input search after a probe-width
+    obligation broke (a million keys: probe chains of tens of thousands of cells with steps up to 10^6)"""
+    exe, msg = vlib.build_driver("plain")
+    if exe is None:
+        return False
+    cs = probe_cases()
+    if deep:
+        cs += probe_cases(1000003) + probe_cases(300007, kinds=("HASHRPDAC", "HASHRPF"))
+    out = vlib.run_cases(exe, cs, tag="impl-probe-big", timeout_case=1500)
+    found = False
+    for c in cs:
+        o = out.get(c.name, {"lines": [], "status": "missing", "err": []})
+        run.count((c.name,), nontrivial=True)
+        line = next((l for l in o["lines"] if l.startswith("locall ")), "")
+        bad = o["status"] != "ok" or not line or "notfound=0 wrongextract=0" not in line
+        if bad:
+            found = True
+            run.violation("%s over %d strings, overhead 0: %s" % (c.meta["kind"], c.meta["n"], line or (o["status"] + " " + " | ".join(o["err"][:2]))),
+                          {"kind": c.meta["kind"], "operation": "locate", "command": "locall r", "detail": line,
+                           "case": {"name": c.name, "generator": "tools/props/dictcheck.py probe_cases()", "n": c.meta["n"], "params": ["0"]}},
+                          found_input=True)
+    return found
+
+
 def run(runobj, cfg, tier, seed, replay):
     run = runobj
     pid = cfg.pid
@@ -190,6 +229,9 @@ def run(runobj, cfg, tier, seed, replay):
     if cfg.serial:
         sok, serial_failed, slog = vlib.serial_side(run, pid)
         run.extra["schema_log_tail"] = slog[-1500:] if not sok else ""
+    probe_failed = []
+    if getattr(cfg, "probe", False):
+        pok, probe_failed, _sites = vlib.probe_side(run, pid)
     ok, msg = vlib.build_oracle()
     run.oblige("extracted oracle builds", ok, msg)
     exe, msg = vlib.build_driver("asan", extra_defs=getattr(cfg, "extra_defs", ()))
@@ -290,6 +332,13 @@ def run(runobj, cfg, tier, seed, replay):
                       % ", ".join(serial_failed[:6]),
                       {"kind": "schema", "operation": "Properties_serial", "obligations": serial_failed,
                        "detail": run.extra.get("schema_log_tail", "")}, found_input=False)
+    if getattr(cfg, "probe", False):
+        found = probe_search(run, cfg, deep=bool(probe_failed))     # cheap (seconds): runs on every check, and is the failing-input search when an obligation broke
+        if probe_failed and not found and not run.violations:
+            run.violation("regenerated obligation(s) on the probe arithmetic no longer check against the current source: %s (property not seen to "
+                          "fail on the explored inputs, incl. the large nearly-full tables)" % ", ".join(probe_failed[:6]),
+                          {"kind": "hash", "operation": "Properties_probe", "obligations": probe_failed,
+                           "detail": run.extra.get("probe_check", {})}, found_input=False)
     if not proof_ok:
         run.violation("proof obligation of %s no longer checks" % pid,
                       {"kind": "proof", "operation": "coqc", "detail": run.extra.get("coq_failure", {})}, found_input=False)
